@@ -61,6 +61,7 @@ def _register_all():
     for div in (2, 3, 4, 5):
         for mode in ("raw", "aligned"):
             spi(f"spi.master(dw=4,div={div},{mode})", "quick", dw=4, div=div, mode=mode)
+            spi(f"spi.master(dw=4,div={div},{mode},6_words,all_answers)", "thorough", dw=4, div=div, mode=mode, full_words=True, swords="all")
     spi("spi.master(dw=4,div=2,raw,loopback)", "quick", dw=4, div=2, mode="raw", loopback=1)
     spi("spi.master(dw=4,div=3,aligned,loopback)", "quick", dw=4, div=3, mode="aligned", loopback=1)
     spi("spi.master(dw=4,div=2,aligned,cs_manual,ncs=2)", "quick", dw=4, div=2, mode="aligned", cs_mode=1, ncs=2)
